@@ -93,6 +93,42 @@ def run_impl(cases):
         raise RuntimeError('C09 driver failed: ' + r.stderr.decode()[-400:])
 
 
+IMPL_JS = r"""
+const path = require('path');
+const repo = process.env.VERIF_REPO || '/repo';
+const rbql = require(path.join(repo, 'rbql-js', 'rbql.js'));
+let data = '';
+process.stdin.on('data', d => data += d);
+process.stdin.on('end', async () => {
+    const cases = JSON.parse(data);
+    const out = [];
+    for (const c of cases) {
+        const rows = [], w = [];
+        try {
+            const A = c.rows.map(r => r.slice());
+            if (c.join)
+                await rbql.query_table(c.query, A.map(r => ['x']), rows, w, A, ['only'], c.names);
+            else
+                await rbql.query_table(c.query, A, rows, w, null, c.names, null);
+            out.push({rows: rows});
+        } catch (e) {
+            out.push({err: String(e && e.message !== undefined ? e.message : e).slice(0, 160)});
+        }
+    }
+    console.log(JSON.stringify(out));
+});
+"""
+
+
+def run_impl_js(cases):
+    import subprocess
+    r = subprocess.run([common.NODE, '-e', IMPL_JS], input=json.dumps(cases).encode(), env=common.impl_env(), stdout=subprocess.PIPE, stderr=subprocess.PIPE, timeout=900)
+    try:
+        return json.loads(r.stdout.decode().strip().split('\n')[-1])
+    except (ValueError, IndexError):
+        raise RuntimeError('C09 js driver failed: ' + r.stderr.decode()[-400:])
+
+
 def py_escape(name, q):
     s = name.replace('\\', '\\\\').replace('\n', '\\n').replace('\r', '\\r').replace('\t', '\\t')
     return s.replace(q, '\\' + q)
@@ -198,6 +234,29 @@ def run(res, tier, seed):
                                        'names': c['names'], 'query_py': c['query'], 'frontend': c['frontend'], 'expected': want, 'observed': o,
                                        'case_key': 'C09|bind|%s|%s|%s' % (json.dumps(c['names']), c['query'], c['frontend'])})
     res.count('binding_failures', nbad)
+    # (2b) the same binding through the REAL rbql-js engine (its own escaping: js_string_escape_column_name, its own variable parsers);
+    # input table AND join table (b["name"]), list front-end, spellings that are valid in both languages
+    jcases = [c for c in cases if c['frontend'] == 'list' and c['spell'] in ('dq', 'sq', 'attr')]
+    for c in list(jcases):
+        if rnd.random() < 0.4:
+            jc = dict(c)
+            jc['query'] = 'select b' + c['query'][len('select a'):].replace(', NR', ', bNR') + ' join b on NR == bNR'
+            jc['join'] = True
+            jcases.append(jc)
+    jouts = run_impl_js(jcases)
+    res.evaluations += len(jcases)
+    nbadj = 0
+    for c, o in zip(jcases, jouts):
+        res.count('frontend=js-%s spelling=%s' % ('join' if c.get('join') else 'list', c['spell']))
+        res.nontrivial.add(('js', tuple(c['names']), c['pos'], c['spell'], bool(c.get('join'))))
+        want = [[r[c['pos']], i + 1] for i, r in enumerate(c['rows'])]
+        if o.get('rows') != want:
+            nbadj += 1
+            if nbadj <= 5:
+                res.violations.append({'property': 'C09', 'impl': 'js', 'why': 'rbql-js: the column-name variable did not deliver the column at that header position (or NR is wrong)',
+                                       'names': c['names'], 'query_js': c['query'], 'expected': want, 'observed': o,
+                                       'case_key': 'C09|bind-js|%s|%s' % (json.dumps(c['names']), c['query'])})
+    res.count('binding_failures_js', nbadj)
     for c in cases[:3]:
         res.sample({'names': c['names'], 'query': c['query'], 'frontend': c['frontend']})
     # (3) header flag x modifier, input and join
